@@ -149,6 +149,11 @@ def run(ctx, res):
     from ..affine import affine_scope, report_affine
     k10 = report_affine(ctx, res, "R2.10", affine_scope(ctx, hs + helpers, ("Line", "Plane", "Segment", "HalfLine", "ConvexPolygon", "ConvexPolyhedron")), "the intersection")
     ctx.require(res, "R2.10", k10, 20, "function contexts examined for position / direction mismatches")
+    # R2.11 no computed value is rounded on its way into the result (exact.report_rounding)
+    from ..exact import report_rounding
+    from ..affine import affine_scope as _ascope
+    kr = report_rounding(ctx, res, "R2.11", _ascope(ctx, hs + helpers, ()), "the intersection")
+    ctx.require(res, "R2.11", kr, 5, "functions scanned for rounding")
     # R2.7 the linear solver picks its pivot row by the pivot column (coverage.py)
     from ..coverage import check_pivot_choice
     check_pivot_choice(ctx, res, "R2.7")
